@@ -93,6 +93,9 @@ class RemotePickler36(pickle.Pickler):
         from ..remote_pickle import SupportRemoteGetState
         super().__init__(*args, **kwargs)
         self._remote = remote
-        self.dispatch_table = dyn_dispatch_table(self.remote_reduce) if self._remote else {}
-        for cls in SupportRemoteGetState.supported_classes:
-            self.dispatch_table[cls] = self.remote_reduce
+        if self._remote:
+            # a private dispatch table replaces the global one (it does not extend it), so start from copyreg's;
+            # without 'remote' no private table is needed at all and we behave like the standard pickler
+            self.dispatch_table = dyn_dispatch_table(self.remote_reduce, copyreg.dispatch_table)
+            for cls in SupportRemoteGetState.supported_classes:
+                self.dispatch_table[cls] = self.remote_reduce
